@@ -10,14 +10,14 @@ import (
 // resolving the printed name from that scope by the protobuf scoping rule
 // (first component searched innermost scope first, then the rest inside it)
 // must give back the referenced element. The descriptor tree is drawn
-// symbolically over a tiny alphabet so that same-named types at different
+// symbolically over a tiny alphabet (A, B, C) so that same-named types at different
 // nesting levels (shadowing) occur.
 func verifDrawTree(prefix string, depth int, budget *int) []*descriptorpb.DescriptorProto {
 	out := []*descriptorpb.DescriptorProto{}
 	n := ndIntRange("children", 0, 2)
 	used := map[string]bool{}
 	for i := 0; i < n && *budget > 0; i++ {
-		name := []string{"A", "B"}[ndChoice("name", 2)]
+		name := []string{"A", "B", "C"}[ndChoice("name", verifParam("names", 3))]
 		if used[name] {
 			continue // sibling names are unique in a valid file
 		}
